@@ -13,6 +13,7 @@ import (
 	"fmt"
 	"strings"
 	"sync/atomic"
+	"time"
 
 	"verif/engine/enum"
 	"verif/engine/report"
@@ -365,6 +366,24 @@ func rep(s string, n int) string { return strings.Repeat(s, n) }
 
 const chunk = 32
 
+// own wall-clock budget (never part of an oracle): when it trips the remaining sweeps are
+// skipped and the run is reported exhaustive:false.
+var (
+	started   = time.Now()
+	budget    time.Duration
+	budgetCut atomic.Bool
+)
+
+func outOfBudget(r *report.R) func() bool {
+	return func() bool {
+		if r.OutOfTime() || time.Since(started) > budget {
+			budgetCut.Store(true)
+			return true
+		}
+		return false
+	}
+}
+
 // parallelChunks runs fn over [0,n) in chunks on all cores; seed rotates the visiting order only.
 func parallelChunks(r *report.R, n int, fn func(i int, t *tally), prefix string) {
 	nch := (n + chunk - 1) / chunk
@@ -372,7 +391,7 @@ func parallelChunks(r *report.R, n int, fn func(i int, t *tally), prefix string)
 	if nch > 0 {
 		rot = int(uint64(r.Seed) % uint64(nch))
 	}
-	enum.Parallel(nch, r.OutOfTime, func(ci int) {
+	enum.Parallel(nch, outOfBudget(r), func(ci int) {
 		ci = (ci + rot) % nch
 		var t tally
 		for i := ci * chunk; i < (ci+1)*chunk && i < n; i++ {
@@ -475,7 +494,7 @@ func encodingSweep(r *report.R, name string, withAbsent bool, sp space, ols [][]
 
 func handlerSweep(r *report.R, name string, configs []Case, hs []hdr) {
 	var realised, builds atomic.Int64
-	enum.Parallel(len(configs), r.OutOfTime, func(ci int) {
+	enum.Parallel(len(configs), outOfBudget(r), func(ci int) {
 		cfg := configs[ci]
 		a := buildAPI(cfg.Offers, cfg.Default)
 		builds.Add(int64(a.builds))
@@ -655,6 +674,10 @@ func main() {
 	}
 	thorough := r.Thorough()
 	none := [][]string{nil}
+	budget = 45 * time.Second // the build takes up to 10 s of the 60 s
+	if thorough {
+		budget = 9 * time.Minute
+	}
 
 	// ---- alphabets ----
 	offers4 := []string{"a/b", "a/c", "c/d", "a/b; charset=utf-8"}
@@ -665,8 +688,11 @@ func main() {
 	q4 := []string{"", "0", "0.5", "0.9"}
 	q6 := []string{"", "0", "0.5", "0.9", "1", "0.50"}
 	inS1 := map[string]bool{}
-	for _, q := range q6 {
+	for _, q := range q4 {
 		inS1[q] = true
+	}
+	if thorough {
+		inS1["1"], inS1["0.50"] = true, true
 	}
 	// every spelling denotes 0, 0.001, 0.1000000000000000001, 0.111..1 (64 digits), 0.25, 0.5, 0.9 or 1
 	qFull := []string{"", "0", "0.", "0.0", "0.000", "0.001", "0.25", "0.5", "0.50", "0.500", "0.5000", "0.9", "1", "1.", "1.0", "1.000",
@@ -684,7 +710,7 @@ func main() {
 
 	// ---- S1: selection logic (plain ranges and q) ----
 	if !thorough {
-		typeSweep(r, "select", true, headers(elemProduct(ranges5, q4, none, none), 0, 3, []int{1}, false, nil), offerLists(offers4, 3), defs)
+		typeSweep(r, "select", true, headers(elemProduct(ranges5, q4, none, none), 0, 3, []int{1}, false, nil), offerLists(offers5, 3), defs)
 	} else {
 		typeSweep(r, "select", true, headers(elemProduct(ranges6, q6, none, none), 0, 3, []int{1}, false, nil), offerLists(offers5, 3), defs)
 		typeSweep(r, "select-4-ranges", false, headers(elemProduct(ranges5, []string{"", "0", "0.5"}, none, none), 4, 4, []int{1}, false, nil), offerLists(offers4, 3), defs)
@@ -720,16 +746,18 @@ func main() {
 		}
 		return false
 	}
-	if !thorough {
-		typeSweep(r, "parameters", false, headers(elemProduct([]string{"a/b", "a/c", "*/*"}, []string{"", "0", "0.5"}, pres, posts), 1, 2, []int{0, 1, 2, 3}, true, withParams), offerLists(offers4, 2), defs)
-	} else {
-		pres = append(pres, []string{`b="x\"y"`}, []string{"level=1", "charset=utf-8"}, []string{`a="x;q=0"`})
-		posts = append(posts, []string{`ext="x,y"`}, []string{"ext=1", "e2=2"})
-		typeSweep(r, "parameters", false, headers(elemProduct([]string{"a/b", "a/c", "a/*", "*/*"}, q4, pres, posts), 1, 2, []int{0, 1, 2, 3}, true, withParams), offerLists(offers4, 2), defs)
-		typeSweep(r, "parameters-3-ranges", false, headers(elemProduct([]string{"a/b", "a/c", "*/*"}, []string{"", "0", "0.5"}, [][]string{nil, {"level=1"}, {"xq=0"}, {`a="x,y"`}}, [][]string{nil, {"ext=1"}}), 3, 3, []int{1}, true, withParams), offerLists(offers4, 2), defs)
+	s3 := func() {
+		if !thorough {
+			typeSweep(r, "parameters", false, headers(elemProduct([]string{"a/b", "a/c", "*/*"}, []string{"", "0", "0.5"}, pres, posts), 1, 2, []int{0, 1, 2, 3}, true, withParams), offerLists(offers4, 2), defs)
+		} else {
+			pres = append(pres, []string{`b="x\"y"`}, []string{"level=1", "charset=utf-8"}, []string{`a="x;q=0"`})
+			posts = append(posts, []string{`ext="x,y"`}, []string{"ext=1", "e2=2"})
+			typeSweep(r, "parameters", false, headers(elemProduct([]string{"a/b", "a/c", "a/*", "*/*"}, []string{"", "0", "0.5"}, pres, posts), 1, 2, []int{0, 1, 2, 3}, true, withParams), offerLists(offers4, 2), defs)
+			typeSweep(r, "parameters-3-ranges", false, headers(elemProduct([]string{"a/b", "a/c", "*/*"}, []string{"", "0", "0.5"}, [][]string{nil, {"level=1"}, {"xq=0"}, {`a="x,y"`}}, [][]string{nil, {"ext=1"}}), 3, 3, []int{1}, true, withParams), offerLists(offers4, 2), defs)
+		}
+		r.Set("params_before_q", pres)
+		r.Set("params_after_q", posts)
 	}
-	r.Set("params_before_q", pres)
-	r.Set("params_after_q", posts)
 
 	// ---- S4: Accept-Encoding ----
 	codings := []string{"gzip", "br", "identity", "*"}
@@ -799,8 +827,12 @@ func main() {
 		rawSweep(r, "raw-bytes-wide", rawSpace{wide, 4, -1})
 	}
 
+	// the largest sweep last: a budget cut then leaves the other sweeps complete
+	s3()
+	r.Set("completed_all_sweeps", !budgetCut.Load())
+
 	r.Assume("the reference negotiation of props/c07/model.go is the meaning of the property text: score of an offer = maximum over the matching ranges of positive q of (exact rational q, specificity), first offer of maximal score wins, default when no offer has a score, first offer without header",
 		"a range carrying media-type parameters is judged under both readings (parameters ignored / must equal the offer's parameters); q spellings outside (0|1)[.digits], q above 1, distinct q values closer than 1e-9, an Accept header without any range and Accept-Encoding corner cases (no header, coding refused by name but admitted by *) are judged for totality and membership only",
 		"handler level: the declared media types are a/b, a/c, c/d without parameters and a producer is registered for each; the offer order is the one the running instance holds (go-openapi/analysis returns the declared list in map order), read from the matched route")
-	r.Finish("every abstract header of the stated element alphabets and lengths x whitespace variants x line splits x every ordered offer list (with duplicates) up to the stated length x default present/absent, each negotiated by the real code and compared with the reference; every byte string up to the stated length as a verbatim header value for totality and membership; every API configuration x header through the real API handler. One evaluation = one call of NegotiateContentType, Context.ResponseFormat, NegotiateContentEncoding, ParseAccept or one request through the handler. Non-trivial = the oracle was fully decisive and the mechanism was reached: structured header in which at least one range matches at least one offer (type/format/encoding), every fully judged request (handler), at least one range parsed (raw). The sweeps are disjoint by construction (filters notInS1 / withParams, distinct entry points, renderings deduplicated by text), so no (entry point, header text, offers, default) tuple is evaluated twice", true)
+	r.Finish("every abstract header of the stated element alphabets and lengths x whitespace variants x line splits x every ordered offer list (with duplicates) up to the stated length x default present/absent, each negotiated by the real code and compared with the reference; every byte string up to the stated length as a verbatim header value for totality and membership; every API configuration x header through the real API handler. One evaluation = one call of NegotiateContentType, Context.ResponseFormat, NegotiateContentEncoding, ParseAccept or one request through the handler. Non-trivial = the oracle was fully decisive and the mechanism was reached: structured header in which at least one range matches at least one offer (type/format/encoding), every fully judged request (handler), at least one range parsed (raw). The sweeps are disjoint by construction (filters notInS1 / withParams, distinct entry points, renderings deduplicated by text), so no (entry point, header text, offers, default) tuple is evaluated twice", !budgetCut.Load())
 }
